@@ -11,15 +11,22 @@ From RP Require Import Lib.Base Model.Gorwp Spec.Gorwp
   Proofs.GorwpDispatch Proofs.GorwpReader Proofs.GorwpSystem Proofs.GorwpLegacy.
 
 (* ------------------------------------------------------------------ dispatch *)
-(* One message, any maps: the handler invocations are, for each event in order, for each binding kind in
-   the order trigger, binary, pulsed, absolute, intensity, one invocation iff a handler of that kind is
-   registered for the event's id and the event carries that payload - with (id, status, edge) / (id, value)
-   / (id, event) as arguments (Spec.event_calls), under the latest registration per (kind, id). *)
+(* One message, any maps, any handlers (including handlers that call Bind* themselves): the handler invocations
+   are, for each event in order, for each binding kind in the order trigger, binary, pulsed, absolute,
+   intensity, one invocation iff a handler of that kind is in force for the event's id and the event carries
+   that payload - with (id, status, edge) / (id, value) / (id, event) as arguments (Spec.event_calls inside
+   Spec.events_demands).  In force = the latest registration per (kind, id) among those made before the message
+   and those made by the handlers of the EARLIER events of the message. *)
 Theorem c19_dispatch_exactly_once : forall b st m,
-  calls_of (fst (dispatch b st m)) =
-  flat_map (fun e => map fst (event_calls (in_force (rev b)) e)) (m_events m).
+  calls_of (fst (fst (dispatch b st m))) = fst (fst (events_demands (rev b) (m_events m))).
 Proof. exact dispatch_exactly_once. Qed.
 Print Assumptions c19_dispatch_exactly_once.
+
+(* handlers that register nothing themselves: one fixed set of maps for the whole message *)
+Theorem c19_dispatch_exactly_once_static : forall b st m, no_rebind (in_force (rev b)) ->
+  calls_of (fst (fst (dispatch b st m))) = flat_map (fun e => map fst (event_calls (in_force (rev b)) e)) (m_events m).
+Proof. exact dispatch_exactly_once_static. Qed.
+Print Assumptions c19_dispatch_exactly_once_static.
 
 (* "exactly one": per event and kind the number of invocations is 1 if registered and matching, else 0 *)
 Theorem c19_one_call_per_kind : forall who e k,
@@ -31,16 +38,19 @@ Theorem c19_one_call_per_kind : forall who e k,
 Proof. exact event_calls_count. Qed.
 Print Assumptions c19_one_call_per_kind.
 
-(* invocations AND what is sent to the panel (ack first, then each handler's feedback in invocation order) *)
+(* invocations, what is sent to the panel (ack first, then each handler's feedback in invocation order), the maps
+   afterwards and the panel state *)
 Theorem c19_dispatch_meets_demands : forall b st m,
-  calls_of (fst (dispatch b st m)) = fst (msg_demands (in_force (rev b)) m) /\
-  sends_of (fst (dispatch b st m)) = snd (msg_demands (in_force (rev b)) m).
+  calls_of (fst (fst (dispatch b st m))) = fst (fst (msg_demands (rev b) m)) /\
+  sends_of (fst (fst (dispatch b st m))) = snd (fst (msg_demands (rev b) m)) /\
+  rev (snd (dispatch b st m)) = snd (msg_demands (rev b) m) /\
+  snd (fst (dispatch b st m)) = upd_state st m.
 Proof. exact dispatch_meets_demands. Qed.
 Print Assumptions c19_dispatch_meets_demands.
 
-(* a panel ping is answered with exactly one acknowledge (handlers cannot send flow messages: the API has none) *)
-Theorem c19_ping_one_ack : forall b ms st, no_ack_handlers (in_force (rev b)) ->
-  count_acks (sends_of (fst (dispatch_all b st ms))) = count_pings ms.
+(* a panel ping is answered with exactly one acknowledge, whatever the handlers send and register *)
+Theorem c19_ping_one_ack : forall b ms st,
+  count_acks (sends_of (fst (fst (dispatch_all b st ms)))) = count_pings ms.
 Proof. exact ping_one_ack. Qed.
 Print Assumptions c19_ping_one_ack.
 
@@ -58,7 +68,7 @@ Theorem c19_state_latest : forall ms st,
 Proof. exact state_latest. Qed.
 Print Assumptions c19_state_latest.
 
-Theorem c19_state_is_fold : forall b ms st, snd (dispatch_all b st ms) = fold_left upd_state ms st.
+Theorem c19_state_is_fold : forall b ms st, snd (fst (dispatch_all b st ms)) = fold_left upd_state ms st.
 Proof. exact dispatch_all_state. Qed.
 Print Assumptions c19_state_is_fold.
 
@@ -108,43 +118,55 @@ Theorem c19_exactly_once_all_schedules : forall unm dec binary b ins sched,
 Proof. exact exactly_once_all_schedules. Qed.
 Print Assumptions c19_exactly_once_all_schedules.
 
-(* handlers registered while events flow: each look-up saw the initial maps plus a prefix of the schedule's
-   Bind* calls (a registration is never seen half-done, never lost, never seen before it was made) *)
+(* handlers registered while events flow - by other goroutines or by handlers from inside their callback -:
+   each look-up saw the initial maps plus a prefix of the registrations made so far (never one half-done,
+   lost, or not yet made); s_blog is the log of registrations in the order they were made *)
 Theorem c19_lookups_see_bind_prefixes : forall unm dec binary b ins sched,
   let s := run unm dec (sys0 binary b ins) sched in
-  Forall (fun eb => exists n, snd eb = rev (firstn n (binds_of sched)) ++ b) (s_evlog s).
+  s_b s = rev (s_blog s) ++ b /\
+  Forall (fun eb => exists n, snd eb = rev (firstn n (s_blog s)) ++ b) (s_evlog s).
 Proof. exact lookups_see_bind_prefixes. Qed.
 Print Assumptions c19_lookups_see_bind_prefixes.
 
-(* no Bind* in the schedule: the invocations are a prefix, in panel order, of what the spec demands *)
-Theorem c19_calls_prefix_of_spec : forall unm dec binary b ins sched,
-  binds_of sched = [] ->
+(* Every schedule in which no OTHER goroutine calls Bind* (handlers may, for their own id or others): the
+   invocations made so far plus those the rest of the run will make are exactly what the spec demands for the
+   script's deliveries - a prefix in panel order at every moment ... *)
+Theorem c19_calls_all_schedules : forall unm dec binary b ins sched,
+  forallb nobind_choice sched = true ->
   let s := run unm dec (sys0 binary b ins) sched in
-  s_trace s ++ pend_calls (s_ops s) = flat_map (fun e => map fst (event_calls (in_force (rev b)) e)) (looked_up s) /\
-  exists rest, looked_up s ++ rest = all_events unm dec binary ins.
-Proof. exact calls_prefix_of_spec. Qed.
-Print Assumptions c19_calls_prefix_of_spec.
+  s_trace s ++ fst (fst (sim (s_b s) (rest_of unm dec s))) =
+  fst (fst (demands (rev b) (map HDeliver (all_ds unm dec binary ins)))).
+Proof. exact calls_all_schedules. Qed.
+Print Assumptions c19_calls_all_schedules.
 
 (* ... and all of it once the input is consumed and the goroutines have come to rest *)
 Theorem c19_complete_run_calls : forall unm dec binary b ins sched,
-  binds_of sched = [] ->
+  forallb nobind_choice sched = true ->
   let s := run unm dec (sys0 binary b ins) sched in
   quiescent s -> s_in s = [] ->
-  s_trace s = fst (demands (rev b) (map HDeliver (snd (reader_run unm dec (rinit binary) ins)))).
+  s_trace s = fst (fst (demands (rev b) (map HDeliver (all_ds unm dec binary ins)))).
 Proof. exact complete_run_calls. Qed.
 Print Assumptions c19_complete_run_calls.
 
 (* What the panel receives from the dispatcher (acks, handler feedback), in order.
-   _partial: stated for schedules without Bind* calls and without other goroutines sending acks / feedback at
-   the same time (with those, the interleaving on the wire is not determined by the panel's history; the ack
-   count per ping is c19_ping_one_ack). *)
+   _partial: stated for schedules in which no other goroutine calls Bind* or sends acks / feedback at the same
+   time (with those, the interleaving on the wire is not determined by the panel's history; the ack count
+   per ping is c19_ping_one_ack). *)
 Theorem c19_wire_all_schedules_partial : forall unm dec binary b ins sched,
   forallb quiet_choice sched = true ->
   let s := run unm dec (sys0 binary b ins) sched in
-  fd (s_wire s) ++ fd (s_to s) ++ fd (pend_sends b (s_ops s)) ++ fd (demanded_sends b (future_ds unm dec s)) =
-  fd (demanded_sends b (snd (reader_run unm dec (rinit binary) ins))).
+  fd (s_wire s) ++ fd (s_to s) ++ fd (snd (fst (sim (s_b s) (rest_of unm dec s)))) =
+  fd (snd (fst (demands (rev b) (map HDeliver (all_ds unm dec binary ins))))).
 Proof. exact wire_all_schedules. Qed.
 Print Assumptions c19_wire_all_schedules_partial.
+
+Theorem c19_complete_run_wire_partial : forall unm dec binary b ins sched,
+  forallb quiet_choice sched = true ->
+  let s := run unm dec (sys0 binary b ins) sched in
+  quiescent s -> s_in s = [] ->
+  fd (s_wire s) = fd (snd (fst (demands (rev b) (map HDeliver (all_ds unm dec binary ins))))).
+Proof. exact complete_run_wire. Qed.
+Print Assumptions c19_complete_run_wire_partial.
 
 (* ------------------------------------------------------------------ liveness *)
 (* No reachable state, under any schedule, has work pending (a queued write, a dispatch in progress - e.g. a
@@ -207,7 +229,7 @@ Definition ex_unm (p : bytes) : omsg :=
   | _ => mkMsg 0 (Some (mkInfo [77] [] [])) [(5, 1)] None []
   end.
 Definition ex_dec (l : bytes) : list omsg := [].
-Definition ex_b : bindings := [(KBinary, 7, mkHandler 1 [TFb 7 1; TFb 7 2]); (KTrigger, 7, mkHandler 2 [TFb 7 3])].
+Definition ex_b : bindings := [(KBinary, 7, mkHandler 1 [(7, 1); (7, 2)] []); (KTrigger, 7, mkHandler 2 [(7, 3)] [])].
 
 (* a well-formed binary history with a harmless pause inside a header, a breaking pause inside a payload
    and frames after it; the reader delivers the two messages before the fault and stops *)
@@ -227,15 +249,33 @@ Example c19_ex_burst_is_live :
              (run ex_unm ex_dec (sys0 true ex_b [RBytes (wire_bytes (IFrame [1] None)); RBytes (wire_bytes (IFrame p None))]) [CRead; CPush; CRead; CPush]) in
   quiescent s /\ s_in s = [] /\ length (s_trace s) = 24%nat /\ length (s_wire s) = 37%nat /\
   count_acks (s_wire s) = 1%nat /\
-  s_trace s = fst (demands (rev ex_b) (map HDeliver [[ex_unm [1]]; [ex_unm p]])).
+  s_trace s = fst (fst (demands (rev ex_b) (map HDeliver [[ex_unm [1]]; [ex_unm p]]))).
 Proof. vm_compute. repeat split; reflexivity. Qed.
 
-(* a look-up that really sees a Bind* made while events flow, and one that does not yet *)
+(* a look-up that really sees a Bind* made by another goroutine while events flow, and one that does not yet *)
 Example c19_ex_bind_while_flowing :
-  let sched := [CRead; CPush; CTake; CDisp; CDisp; CBind KPulsed 7 (mkHandler 9 []); CDisp; CDisp; CDisp; CDisp; CDisp; CDisp] in
+  let sched := [CRead; CPush; CTake; CDisp; CDisp; CBind KPulsed 7 (mkHandler 9 [] []); CDisp; CDisp; CDisp; CDisp; CDisp; CDisp] in
   let s := run ex_unm ex_dec (sys0 true ex_b [RBytes (wire_bytes (IFrame [3; 7; 7] None))]) sched in
-  map (fun eb => length (snd eb)) (s_evlog s) = [2%nat; 3%nat] /\ binds_of sched = [(KPulsed, 7, mkHandler 9 [])].
+  map (fun eb => length (snd eb)) (s_evlog s) = [2%nat; 3%nat] /\ s_blog s = [(KPulsed, 7, mkHandler 9 [] [])].
 Proof. vm_compute. split; reflexivity. Qed.
+
+(* a handler that registers handlers from inside its callback: a one-shot binary handler for id 7 replacing itself
+   (tag 1 -> tag 2 -> tag 3) and arming a trigger handler for id 8; one frame with the events 7 7 8 7: the second
+   7 already sees tag 2, the 8 is seen by the handler armed during the first 7, the last 7 sees tag 3; the run
+   comes to rest with exactly the demanded invocations, under two different schedules *)
+Definition ex_h3 : handler := mkHandler 3 [(7, 3)] [].
+Definition ex_h2 : handler := mkHandler 2 [] [(KBinary, 7, ex_h3)].
+Definition ex_h1 : handler := mkHandler 1 [(7, 1)] [(KBinary, 7, ex_h2); (KTrigger, 8, mkHandler 4 [] [])].
+Example c19_ex_handler_binds :
+  let ins := [RBytes (wire_bytes (IFrame [3; 7; 7; 8; 7] None))] in
+  let s1 := drain ex_unm ex_dec [CPush; CTake; CDisp; CWrite] 1000 (run ex_unm ex_dec (sys0 true [(KBinary, 7, ex_h1)] ins) [CRead]) in
+  let s2 := drain ex_unm ex_dec [CWrite; CDisp; CTake; CPush] 1000 (run ex_unm ex_dec (sys0 true [(KBinary, 7, ex_h1)] ins) [CRead]) in
+  quiescent s1 /\ s_in s1 = [] /\
+  map (fun c => match c with CBinary _ t _ _ => t | CTrigger _ t _ => t | CValue _ _ t _ => t end) (s_trace s1) = [1; 2; 4; 3] /\
+  s_trace s1 = fst (fst (demands [(KBinary, 7, ex_h1)] (map HDeliver [[ex_unm [3; 7; 7; 8; 7]]]))) /\
+  s_trace s2 = s_trace s1 /\ s_wire s2 = s_wire s1 /\
+  length (s_blog s1) = 3%nat.
+Proof. vm_compute. repeat split; reflexivity. Qed.
 
 (* state and init: three of four pieces do not initialise, the fourth does; a late fourth piece does not *)
 Example c19_ex_init :
